@@ -616,3 +616,38 @@ def kind_table(P: Project, R: Report) -> None:
     if not cf:
         R.ob("R1", "envelope configuration rewrites nothing", True, P.module(A.MOD_JSONRPC).rel, "")
 
+
+    # ------------------------------------------------------------------ R7: what the caller hands to an emitting helper is what goes out
+    R.rule("R7", "params are emitted as given: an emitting helper of protocol/messages does not pass a caller's number through a model field typed `float` on its way into the envelope (Pydantic turns an int into a float there: above 2**53 the value changes, below it the JSON type does) — params are built from the arguments themselves")
+    from ..models import ModelTable as _MT7
+
+    T7 = _MT7(P)
+    by_name7 = {}
+    for m7 in T7.models.values():
+        by_name7.setdefault(m7.name, []).append(m7)
+    n7 = 0
+    for f7 in P.funcs.values():
+        if not f7.module.name.startswith("chuk_mcp.protocol.messages") or f7.cls is not None:
+            continue
+        dumps7 = [c7 for c7 in walk_local(f7.node) if isinstance(c7, ast.Call) and isinstance(c7.func, ast.Attribute) and c7.func.attr in ("model_dump", "model_dump_json", "dict") and isinstance(c7.func.value, ast.Name)]
+        for c7 in dumps7:
+            ctor = [x.value for x in walk_local(f7.node) if isinstance(x, ast.Assign) and len(x.targets) == 1 and isinstance(x.targets[0], ast.Name) and x.targets[0].id == c7.func.value.id and isinstance(x.value, ast.Call)]
+            if len(ctor) != 1:
+                continue
+            kind7, cls7 = P.resolve_name(f7.module.name, call_name(ctor[0]).split(".")[-1])
+            ms7 = [m_ for m_ in by_name7.get(getattr(cls7, "name", ""), []) if kind7 == "class" and m_.ci is cls7]
+            if not ms7:
+                continue
+            n7 += 1
+            params7 = set(f7.params())
+            for k7 in ctor[0].keywords:
+                fi7 = ms7[0].fields.get(k7.arg) if k7.arg else None
+                if fi7 is None or not (isinstance(k7.value, ast.Name) and k7.value.id in params7):
+                    continue
+                ann7 = fi7.ann_text.replace("typing.", "")
+                floaty = ann7 in ("float", "Optional[float]", "float | None", "None | float", "Union[float, None]")
+                R.ob("R7", f"{f7.qual}: `{k7.arg}` goes out as the caller gave it", not floaty, f"{f7.module.rel}:{ctor[0].lineno}",
+                     f"the caller's `{k7.value.id}` is passed through {ms7[0].name}.{k7.arg}: {ann7} before it is dumped into the params: an integer becomes a float on the way (9007199254740993 → 9007199254740992.0; 50 → 50.0), so the emitted params are not the ones the helper was given")
+    R.extra["emitting_helpers_that_dump_a_model_built_from_arguments"] = n7
+    if not any(o.rule == "R7" for o in R.obligations):
+        R.ob("R7", "no emitting helper passes an argument through a float-typed model field", True, "", "", sample=f"R7 {n7} helper(s) dump a model built from their arguments; none narrows a number")
